@@ -67,7 +67,7 @@ def run(check):
         check.cov["rule"] = "replay of one recorded script"
         return
     cfg = ("SPECIFICATION Spec\nCONSTANTS MaxSeq = %d\nLimit = 2\nINVARIANT TypeOk\nINVARIANT NeverUseRetired\nINVARIANT Cap\n"
-           "INVARIANT AnnounceRetirement\nINVARIANT IssueWithinLimit\n" % (3 if check.quick else 4))
+           "INVARIANT AnnounceRetirement\nINVARIANT NoReuse\nINVARIANT IssueWithinLimit\n" % (3 if check.quick else 4))
     r = check.run_tlc("Cid", cfg, name="Cid_M", timeout=2400, heap="6g")
     if r.violated:
         check.model_violation(r, "Cid")
@@ -79,6 +79,12 @@ def run(check):
         prof = "cids" if i % 4 else "migrate"
         jobs.append({"cfg": cfg, "script": script.random_script(rnd, rnd.choice([25, 60, 100]), script.PROFILES[prof]),
                      "seed": rnd.randrange(1 << 30), "hs_adv": False, "profile": prof})
+    # connection IDs changed while the sender is congestion-limited by a bulk transfer
+    for i in range(n // 3):
+        cfg = {"cc": rnd.choice(["reno", "cubic"]), "version": rnd.choice(["v1", "v2"])}
+        jobs.append({"cfg": cfg, "script": script.random_script(rnd, rnd.choice([30, 60]), script.PROFILES["cidload"], streams=[0, 3],
+                                                                 sizes=[20000, 60000, 150000]),
+                     "seed": rnd.randrange(1 << 30), "hs_adv": False, "profile": "cidload"})
     # corpus: a later NEW_CONNECTION_ID overtakes an earlier one with a raised retire-prior-to
     jobs.append({"cfg": {}, "script": [["changecid", "c"], ["deliver", 0], ["deliver", 0], ["deliver", 0], ["ncid", "s", 6, 0],
                                        ["ncid", "s", 2, 0], ["ncid", "s", 6, 0], ["changecid", "c"], ["changecid", "c"],
